@@ -162,6 +162,31 @@ func genC17(g *Gen) {
 		allSizes([]string{big}, "shape-long")
 		allSizes([]string{big[:65536], "b"}, "shape-long")
 	}
+	// (2c) very deep shared prefixes: adjacent keys sharing 65535..65540 bytes (a common-prefix length
+	// kept in 16 bits wraps here only); a handful of cases -- each argument text is ~130 KB per key
+	{
+		deep := func(pl int, tails ...string) []string {
+			p := strings.Repeat("a", pl)
+			var ks []string
+			for _, t := range tails {
+				ks = append(ks, p+t)
+			}
+			return c16SortDedup(ks)
+		}
+		for _, ks := range [][]string{
+			deep(65535, "a", "b"),
+			deep(65536, "a", "b", "ba"),
+			deep(65537, "b", "c"),
+			deep(65540, "", "a", "b", "ba"),
+		} {
+			for _, ms := range []int{1, 2, len(ks)} {
+				if ms == 2 && len(ks) == 2 {
+					continue
+				}
+				do(ks, ms, "shape-deep64k")
+			}
+		}
+	}
 	// (3) structured random key sets
 	nb := g.N(500, 10000)
 	for k := 0; k < nb; k++ {
